@@ -71,8 +71,14 @@ Theorem wildcard_covers_one_label : forall dn host rest,
 Proof. exact wildcard_one_label. Qed.
 Print Assumptions wildcard_covers_one_label.
 
+(* the A-label test of _dnsname_match still ignores the letter case (source fact; the model's does) *)
+Theorem alabel_source_fact : Gen_Tls.alabel_test_ignores_case = Some true.
+Proof. reflexivity. Qed.
+Print Assumptions alabel_source_fact.
+
+(* (the A-label prefix in any letter case: `XN--*` is as much an A-label as `xn--*`) *)
 Theorem must_reject_wildcard_in_alabel : forall dn host lm rem,
-  count_star host = 0%nat -> split_dot dn = lm :: rem -> starts_with XN lm = true -> (0 < count_star lm)%nat ->
+  count_star host = 0%nat -> split_dot dn = lm :: rem -> starts_with XN (ascii_lower lm) = true -> (0 < count_star lm)%nat ->
   dnsname_match dn host <> DMatch true.
 Proof. exact reject_wildcard_in_alabel. Qed.
 Print Assumptions must_reject_wildcard_in_alabel.
